@@ -36,6 +36,9 @@ func seqs(maxLen, nKeys int) [][]int {
 }
 
 func boundedDeleteCBOR(maxLen, nKeys int) (ok bool) {
+	if hThorough() {
+		maxLen, nKeys = maxLen+1, nKeys+1
+	}
 	defer func() {
 		if r := recover(); r != nil {
 			fmt.Println("boundedDeleteCBOR: panic:", r)
@@ -73,6 +76,9 @@ func boundedDeleteCBOR(maxLen, nKeys int) (ok bool) {
 }
 
 func boundedDeleteJSON(maxLen, nKeys int) (ok bool) {
+	if hThorough() {
+		maxLen, nKeys = maxLen+1, nKeys+1
+	}
 	defer func() {
 		if r := recover(); r != nil {
 			fmt.Println("boundedDeleteJSON: panic:", r)
